@@ -122,6 +122,48 @@ def dir_names():
     return sorted(names)
 
 
+TEMPLATES = ['"{0.__class__}"', '"{0.__class__.__mro__}"', '"{0.__init__.__globals__}"', '"{.__class__}"', '"{0!r:>{1}}"', '"%s"', '"%(x)s"', '"%r"',
+             '"__class__"', '"{}"', '"{description.__class__}"', '"\\\\g<0>"', '"(?P<x>.)(?P=x)"', '"$description"', '"${__class__}"']
+PROBE_ARGS = ['description', 'amount', 'rows', 'rows[0]', 'date', 'contains', 'field', '[r for r in rows]', '(r for r in rows)', '"x"', '2']
+
+
+def function_names():
+    """Every function name the real evaluators resolve right now (so that a newly registered function is probed too)."""
+    from tally import expr_parser as EP
+    names = set(getattr(EP.TransactionContext, '_FUNCTION_NAMES', ()))
+    names.update(n[4:] for n in dir(EP.TransactionContext) if n.startswith('_fn_'))
+    try:
+        names.update(EP.ExpressionContext([{'amount': 1.0, 'date': datetime.datetime(2025, 1, 1)}], 1).functions)
+    except Exception:
+        names.update(n[4:] for n in dir(EP.ExpressionContext) if n.startswith('_fn_'))
+    names.update(['abs', 'round', 'len', 'sum', 'any', 'all', 'next', 'min', 'max', 'exists', 'list', 'str', 'int', 'float', 'sorted', 'format'])
+    return sorted(names)
+
+
+def function_probes(r, thorough):
+    """every resolvable function × adversarial template strings in every argument position, beside ordinary operands"""
+    out = []
+    for fn in function_names():
+        tpls = TEMPLATES if thorough else r.sample(TEMPLATES, 5)
+        for t in tpls:
+            a, b = r.choice(PROBE_ARGS), r.choice(PROBE_ARGS)
+            out += [f'{fn}({t})', f'{fn}({t}, {a})', f'{fn}({a}, {t})', f'{fn}({t}, {a}, {b})', f'{fn}({a}, {t}, {b})']
+    return out
+
+
+def benign(r, txn, thorough):
+    """ordinary, documented-style expressions: the monitor (AST / transaction / rows unchanged, repeatable) applies to them as well"""
+    out = ['date >= "2025-01-01"', '"2025-01-15" == date', 'date < "2025-03-01" and date > "2024-12-31"', 'date != "2025-01-15"',
+           '[r.item for r in rows if r.date == "2025-01-15"]', 'any(r.date >= "2025-01-01" for r in rows)', 'date - rows[0].date',
+           'month == 1 and year == 2025', 'contains("UBER") and amount > 10', 'extract("(\\d+)")', 'split(" ", 0)', 'field.memo',
+           'regex_replace(description, "\\s+", " ")', 'round(amount * 2, 1)', 'sum(r.amount for r in rows)', '(m := [r for r in rows]) and len(m) > 0',
+           'next((r.item for r in rows if r.amount > 1), "none")', 'abs(amount) if amount < 0 else amount', 'source == "Amex" or location == "WA"']
+    t = dict(txn)
+    for _ in range(600 if thorough else 120):
+        out.append(GR.gen_match(r, t, ('is_large',)))
+    return out
+
+
 def payloads(r, thorough):
     out = list(CLASSIC)
     names = dir_names()
@@ -148,6 +190,7 @@ def payloads(r, thorough):
         wrap = r.choice(['{}', 'trim({})', 'len({})', '[x for x in {}]', 'any(x for x in {})', '{} == 1', 'uppercase({})', 'exists({})',
                          '(y := {})', 'next(x for x in [{}] )' if False else 'contains({})', '{} if true else 0', 'not {}'])
         out.append(wrap.format(e))
+    out += function_probes(r, thorough)
     return out
 
 
@@ -264,10 +307,27 @@ def observe(text, txn, rows):
                 problems.append(f'{type(e).__name__} escaped the evaluator')
             if ast.dump(tree) != dump0:
                 problems.append('parsed expression was modified by evaluation')
+            elif 'ok' in outcome or outcome.get('err') == 'expr':
+                # the same text, the same transaction: the same answer (nothing the first evaluation did may show)
+                try:
+                    again = {'ok': exprs.val_json(EP.evaluate_transaction(text, txn, None, rows))}
+                except EP.ExpressionError:
+                    again = {'err': 'expr'}
+                except (KeyboardInterrupt, _Timeout):
+                    raise
+                except BaseException as e:
+                    again = {'err': 'py', 'cls': type(e).__name__}
+                if not exprs.same_outcome(outcome, again) and outcome.get('ok', {}).get('t') not in ('gen', 'other'):
+                    problems.append(f'evaluating the same expression again gives {json.dumps(again)[:80]} instead of {json.dumps(outcome)[:80]}')
+                if ast.dump(tree) != dump0:
+                    problems.append('parsed expression was modified by evaluation')
             # the view evaluator must reject or confine it too
             try:
-                EP.evaluate_filter(text, [{'amount': 1.0, 'date': datetime.datetime(2025, 1, 1), 'tags': ['a'], 'category': 'c',
-                                           'subcategory': 's', 'merchant': 'm'}])
+                fv = EP.evaluate_filter(text, [{'amount': 1.0, 'date': datetime.datetime(2025, 1, 1), 'tags': ['a'], 'category': 'c',
+                                                'subcategory': 's', 'merchant': 'm'}])
+                fs = fv if isinstance(fv, str) else (repr(fv) if isinstance(fv, (list, dict, tuple, set)) else '')
+                if any(m in fs for m in INTERNALS):
+                    problems.append(f'view evaluator: interpreter internals in the value: {fs[:80]}')
             except EP.ExpressionError:
                 pass
             except (KeyboardInterrupt, _Timeout):
@@ -330,6 +390,8 @@ def run(ctx):
     rows = copy.deepcopy(evalcorr.ROWS)
     prop_fail = []
     plist = payloads(r, not ctx.quick)
+    n_attack = len(plist)
+    plist += benign(r, txn, not ctx.quick)
     if ctx.replay:
         ce = json.loads(common.read(ctx.replay)).get('counterexample', {})
         plist = [ce['payload']] if 'payload' in ce else plist[:50]
@@ -385,10 +447,13 @@ def run(ctx):
     ctx.cov['rule'] = ('payloads = classic sandbox escapes (%d), every attribute name reachable via dir() on str/dict/list/float/int/date/timedelta/'
                        'function/builtin/type/generator/bytes/bound-method objects plus frame/code/function internals (%d names) applied as attribute, '
                        'method call, subscript key, field./txn. attribute and bare name to %d receiver shapes (thorough: all combinations; quick: a sample), '
-                       'random splices; each runs through parse_expression + both evaluators + a rules file using it in every expression position, under '
+                       'random splices; every function name the evaluators resolve × adversarial template strings in each argument position; ordinary generated match '
+                       'expressions (monitor: AST / transaction / rows unchanged, re-evaluation gives the same answer); each runs through parse_expression + both evaluators + a rules file using it in every expression position, under '
                        'the audit-hook monitor. Non-trivial = distinct payloads that were rejected at load or reached evaluation'
                        % (len(CLASSIC), len(dir_names()), len(RECEIVERS)))
     ctx.notes['payload_outcomes'] = hist
+    ctx.notes['function_names_probed_with_template_strings'] = len(function_names())
+    ctx.notes['benign_expressions_under_the_same_monitor'] = len(plist) - n_attack
     ctx.notes['node_kinds_covered_by_validate_correspondence'] = len(kinds_seen)
     ctx.notes['unmodelled_skipped'] = st['unmodelled']
     for p in plist[:3] + plist[len(plist) // 2: len(plist) // 2 + 2]:
@@ -396,7 +461,7 @@ def run(ctx):
 
     def search():
         out = []
-        for p in payloads(r, True):
+        for p in payloads(r, True) + benign(r, txn, True):
             o, problems = observe(p, txn, rows)
             if problems:
                 out.append({'class': 'not-confined', 'payload': p, 'problems': problems, 'outcome': o})
